@@ -257,6 +257,10 @@ func (c *Ctx) exportSelfCheck(key string) {
 		G(pat("("+acc+" == litefs.(*DB).Pos(p0).PostApplyChecksum)")+"|"+pat("(litefs.(*DB).Pos(p0).PostApplyChecksum == "+acc+")"), true),
 		GP("ltx.(Pos).IsZero(litefs.(*DB).Pos(p0))", true),
 	), 1, "an export succeeds only if the checksum accumulated over the pages it wrote equals the captured position's checksum (or the position is zero)", "an export taken over a hot journal, or racing a writer the lock protocol failed to exclude, would hand out uncommitted pages as the image of the reported position")
+	c.Guarded(key+"/before-first-byte", ex, p.PlainCalls("io.Writer.Write"), gs(
+		G(pat("("+acc+" == litefs.(*DB).Pos(p0).PostApplyChecksum)")+"|"+pat("(litefs.(*DB).Pos(p0).PostApplyChecksum == "+acc+")"), true),
+		GP("ltx.(Pos).IsZero(litefs.(*DB).Pos(p0))", true),
+	), 1, "no byte is handed to the destination before that comparison succeeded", "the export endpoint streams into the HTTP response: bytes written before a failed check arrive as status 200 and a database that contains the uncommitted page")
 	c.Guarded(key+"/lock-page-excluded", ex, p.PlainCalls("ltx.ChecksumPage"), gs(lockPg), 1, "the lock page does not enter the accumulated checksum", "")
 	c.OnlyGuards(key+"/every-other-page", ex, p.PlainCalls("ltx.ChecksumPage"), gs(lockPg, G(`.*`, true), G(`.*`, false)), 1, "every other page written enters it", "")
 	for _, in := range Instrs(c.F(ex), p.PlainCalls("ltx.ChecksumPage")) {
